@@ -138,6 +138,8 @@ func c16Menu(sizes []int) []c16Op {
 		}
 	}
 	fvs = append(fvs, fv{"SetPayload(nil)", 1, 0}, fv{"no SetPayload", 2, 0})
+	// the caller changes its mind: SetPayload with a payload of another length class first, then the one that is sent
+	fvs = append(fvs, fv{"payload 200, then 5", 3, 5}, fv{"payload 5, then 2", 4, 2})
 	for _, v := range fvs {
 		v := v
 		for _, async := range []bool{false, true} {
@@ -157,6 +159,10 @@ func c16Menu(sizes []int) []c16Op {
 					f.SetPayload(p)
 				case 1:
 					f.SetPayload(nil)
+				case 3, 4:
+					f.SetPayload(payloadBytes(c.seed+50, map[int]int{3: 200, 4: 5}[v.set]))
+					p = payloadBytes(c.seed, v.n)
+					f.SetPayload(p)
 				}
 				active := c.ws.State() == websocket.StateActive
 				perr := new(error)
@@ -354,7 +360,7 @@ func C16(tier string) *engine.Report {
 	sres := c16SizesDFS(tier).Run()
 	tot.Add(sres, rep)
 	rep.Coverage["size_sweep"] = map[string]any{"sizes": len(c16SweepSizes), "executions": sres.Executions, "finished": sres.Exhaustive, "violations": len(sres.Violations)}
-	tot.Fill(rep, "all sequences of <=3 operations from the write menu (Write/AsyncWrite x 8 size classes, WriteFrame/AsyncWriteFrame with payload / SetPayload(nil) / no SetPayload, automatic Pong, Close/AsyncClose, automatic Close reply) x 3 transport behaviours, with a deferred transport write optionally left in flight while the next asynchronous operation starts; "+
+	tot.Fill(rep, "all sequences of <=3 operations from the write menu (Write/AsyncWrite x 8 size classes, WriteFrame/AsyncWriteFrame with payload / SetPayload(nil) / no SetPayload / SetPayload twice with different length classes, automatic Pong, Close/AsyncClose, automatic Close reply) x 3 transport behaviours, with a deferred transport write optionally left in flight while the next asynchronous operation starts; "+
 		"the complete outbound byte stream is parsed by an independent parser; non-trivial = more than one operation or a partial/deferred transport; plus, over real TCP, the resumed-session family of the handshake driver (the server of a second session on the same Stream receives exactly the first message written); plus a sweep of every payload size 0..8300 and within 24 bytes of 16/32/64/128 KiB, blocking and asynchronous, on a fresh stream and after a 20000-byte or 1-byte message", d.MaxDeviations)
 	return rep
 }
